@@ -117,7 +117,7 @@ def gc_trace(ctx, which):
     model_check_many(ctx, [("MC_Walrus", "MC_Walrus_%s_gc" % f.capitalize(), "design-gc-" + f) for f in (["calls", "tables"] if q else FAMILIES)])
     trace = os.path.join(ctx.work, "gc.ndjson")
     inputs = "fixtures,file:%s,%s,gen:%d,gen:%d:stable,gen:%d:mvp" % (DODRIO, fam_inputs(ctx, fams), n, n // 4, n // 4)
-    wv(["trace-gc", "inputs=" + inputs, "seed=%d" % ctx.seed, "out=" + trace])
+    wv(["trace-gc", "inputs=" + inputs, "built=%d" % (300 if q else 10000), "seed=%d" % ctx.seed, "out=" + trace])
     os.environ["PROPERTY"] = which
     r, cases = judge_trace(ctx, "Trace_GC", trace, slim=lambda c: {k: c[k] for k in ("id", "source", "outcome", "sigma", "extra_roots")})
     for c in cases[:2] + cases[-2:]:
@@ -133,7 +133,8 @@ def check_C06(ctx):
     ctx.rule = ("design: Walrus.tla with the GC worklist of passes/used.rs over Families.tla, invariants NoPanic, OutputIsIso, GcExact (used = Reach); "
                 "implementation: parse;gc;emit on concretised families, fixtures, real-world fixture and generated modules (a third of them with extra roots "
                 "contributed by a typed custom section); TLC recomputes Reach declaratively and requires out valid, Iso on the kept part, exports equal, "
-                "nothing reachable dropped. A case is one module; non-trivial = the pass removed something.")
+                "nothing reachable dropped. The same judgement is passed on modules built and edited through the API (FunctionBuilder functions with multi-value signatures and "
+                "blocks, replace_exported_func / replace_imported_func), where the module emitted before the pass plays the input. A case is one module; non-trivial = the pass removed something.")
     gc_trace(ctx, "C06")
     # behavioural half: the Exec.tla oracle on parse;gc;emit (a failing instantiation of the original is not compared)
     exec_oracle(ctx, 1, 300 if ctx.quick() else 20000, 4 if ctx.quick() else 16)
